@@ -1,4 +1,4 @@
-"""C26 — inverse Langevin approximations: derivative clauses (exact/near-exact
+"""C26 — inverse Langevin approximations: derivative and parity clauses (exact/near-exact
 formula identities on the IR).  Accuracy w.r.t. the true inverse Langevin
 function is not decided."""
 from fractions import Fraction
@@ -7,7 +7,8 @@ from absint import lower_driver, Unsupported
 from tensoralg import *
 import poly as P
 
-RULE = ("Poly-domain abstract interpretation: on every path of computeFunctionAndDerivative the second component is the "
+RULE = ("Poly-domain abstract interpretation: the rational approximations are odd with an even derivative (normal forms of f(y) and "
+        "f(-y) on each region); on every path of computeFunctionAndDerivative the second component is the "
         "exact derivative (quotient rule) of the first, the first equals computeFunction on the same path, KUHN_GRUN_1942 "
         "dispatches to the Morch series; Bergstrom-Boyce: tan/cos branch has the shape c1 tan(c2 y)+c3 y and "
         "c1 c2/cos(c2 y)^2+c3, both variants switch at the same constant")
@@ -32,28 +33,74 @@ def run(tier):
         rep.count("paths explored", len(r))
         return r
     res = {}
+
+    def cond_holds(path, y0):
+        """the comparisons recorded on a path, evaluated at y = y0 (exact rational arithmetic)."""
+        for info, taken in path:
+            if not (isinstance(info, tuple) and len(info) == 3 and isinstance(info[1], Rat) and isinstance(info[2], Rat)):
+                return None
+            l, r = info[1].subs("y", Fraction(y0)), info[2].subs("y", Fraction(y0))
+            if not (l.is_const() and r.is_const()):
+                return None
+            lv, rv = l.n.const_value() / l.d.const_value(), r.n.const_value() / r.d.const_value()
+            pred = info[0]
+            val = {"olt": lv < rv, "ult": lv < rv, "ole": lv <= rv, "ule": lv <= rv, "ogt": lv > rv, "ugt": lv > rv, "oge": lv >= rv,
+                   "uge": lv >= rv, "oeq": lv == rv, "ueq": lv == rv, "one": lv != rv, "une": lv != rv}.get(pred)
+            if val is None:
+                return None
+            if val != bool(taken):
+                return False
+        return True
+
+    def select(pths, y0, what):
+        ok = [p_ for p_ in pths if cond_holds(p_[0], y0)]
+        und = [p_ for p_ in pths if cond_holds(p_[0], y0) is None]
+        if len(ok) != 1 or und:
+            raise AnalysisBroken("%s: %d feasible paths at y = %s (%d undecided)" % (what, len(ok), y0, len(und)))
+        return ok[0]
+    SAMPLES = (Fraction(3, 10), Fraction(9, 10), Fraction(99, 100))
     for name in ("cohen", "jedynak", "morch", "kuhngrun"):
         fd = paths("verif_fd_" + name, 2)
         f = paths("verif_f_" + name, 1)
-        if len(fd) != 1 or len(f) != 1:
-            raise AnalysisBroken("%s: expected straight-line code" % name)
-        v, d = fd[0][1][0]
-        res[name] = (v, d)
-        if d.approx_equals(v.diff("y"), RTOL):
-            exact = d.equals(v.diff("y"))
-            rep.ok("%s: second component of computeFunctionAndDerivative is d/dy of the first (%s)"
-                   % (name.upper(), "exactly" if exact else "coefficients within %g, constants folded by the compiler" % RTOL))
-        else:
-            rep.fail("DERIVATIVE@InverseLangevinFunction<%s>" % name.upper(),
-                     "%s: the derivative returned is  %r  but d/dy of the value  %r  is  %r" % (name.upper(), d, v, v.diff("y")))
-        if f[0][1][0][0].approx_equals(v, RTOL):
-            rep.ok("%s: computeFunction equals the first component of computeFunctionAndDerivative" % name.upper())
-        else:
-            rep.fail("VALUE-MISMATCH@InverseLangevinFunction<%s>" % name.upper(),
-                     "%s: computeFunction  %r  differs from the value of computeFunctionAndDerivative  %r" % (name.upper(), f[0][1][0][0], v))
-        # parity is reported, not required (the approximations are documented for y in [0,1))
-        vm = run_shim(mod, "verif_f_" + name, [[-y]], [1])[0][1][0][0]
-        rep.extra.setdefault("parity", {})[name] = "odd" if (vm + f[0][1][0][0]).approx_equals(0, RTOL) else "not odd as coded"
+        fmap0 = {tuple((str(i), d_) for i, d_ in p_[0]): p_ for p_ in f}
+        for path, outs, trace, assum, ret, dom in fd:
+            v, d = outs[0]
+            key = tuple((str(i), d_) for i, d_ in path)
+            tag = "" if len(fd) == 1 else " on the path %s" % ("y < 0" if any(t for _i, t in path) else "y >= 0")
+            rep.count("rational paths")
+            if d.approx_equals(v.diff("y"), RTOL):
+                exact = d.equals(v.diff("y"))
+                rep.ok("%s%s: second component of computeFunctionAndDerivative is d/dy of the first (%s)"
+                       % (name.upper(), tag, "exactly" if exact else "coefficients within %g, constants folded by the compiler" % RTOL))
+            else:
+                rep.fail("DERIVATIVE@InverseLangevinFunction<%s>" % name.upper(),
+                         "%s%s: the derivative returned is  %r  but d/dy of the value  %r  is  %r" % (name.upper(), tag, d, v, v.diff("y")))
+            pv = fmap0.get(key)
+            if pv is None and len(f) == 1 and len(fd) == 1:
+                pv = f[0]
+            if pv is not None and pv[1][0][0].approx_equals(v, RTOL):
+                rep.ok("%s%s: computeFunction equals the first component of computeFunctionAndDerivative" % (name.upper(), tag))
+            else:
+                rep.fail("VALUE-MISMATCH@InverseLangevinFunction<%s>" % name.upper(),
+                         "%s%s: computeFunction differs from the value of computeFunctionAndDerivative  %r (or does not branch alike)" % (name.upper(), tag, v))
+        # the canonical (y >= 0) forms, used by the dispatch clause
+        p0 = select(fd, SAMPLES[0], name)
+        res[name] = p0[1][0]
+        # oddness: on each region the value at -y is minus the value at y, and the derivative is even
+        fdm = run_shim(mod, "verif_fd_" + name, [[-y]], [2])
+        odd = True
+        for y0 in SAMPLES:
+            pp, pm = select(fd, y0, name), select(fdm, y0, name + "(-y)")
+            (vp, dp), (vm, dm) = pp[1][0], pm[1][0]
+            rep.count("parity regions")
+            if not ((vp + vm).approx_equals(0, RTOL) and (dp - dm).approx_equals(0, RTOL)):
+                odd = False
+                rep.fail("PARITY@InverseLangevinFunction<%s>" % name.upper(),
+                         "%s is not odd: around y = %s, f(-y) = %r whereas -f(y) = %r (the property requires every approximation to be odd: "
+                         "the Langevin function of f(y) is far from y for negative y)" % (name.upper(), float(y0), vm, -vp))
+                break
+        if odd:
+            rep.ok("%s is odd and its derivative even (identical normal forms on the regions around y = 0.3, 0.9, 0.99)" % name.upper())
     if res["kuhngrun"][0].equals(res["morch"][0]) and res["kuhngrun"][1].equals(res["morch"][1]):
         rep.ok("KUHN_GRUN_1942 dispatches to the MORCH_2022 series (identical normal forms)")
     else:
@@ -110,6 +157,6 @@ def run(tier):
     rep.floor("Bergstrom-Boyce paths", 4)
     rep.assumptions += ["exact arithmetic; constants folded by the compiler are compared within a relative tolerance of 1e-12 on "
                         "normal-form coefficients", "tan' = 1/cos^2 (calculus identity used for the trigonometric branch)",
-                        "not decided: accuracy with respect to the true inverse Langevin function, monotonicity, parity "
-                        "(reported in the evidence only)"]
+                        "not decided: accuracy with respect to the true inverse Langevin function, monotonicity; parity of the "
+                        "Bergstrom-Boyce approximation follows from the shape of its branches (tan is odd) and is not decided separately"]
     return rep
